@@ -139,6 +139,11 @@ FindClass(n, c) == SelectSeq(WalkOf(kids, 0), LAMBDA id : nodes[id].n = n /\ c \
 FindKind(k) == SelectSeq(WalkOf(kids, 0), LAMBDA id : nodes[id].k = k)
 (* several classes: the element must carry ALL of them (none requested: every element of that name) *)
 FindClasses(n, cs) == SelectSeq(WalkOf(kids, 0), LAMBDA id : nodes[id].n = n /\ cs \subseteq Classes(nodes[id].a))
+(* find() called ON an element e: its children (recurse = FALSE) or all its descendants, optionally preceded by e itself *)
+FirstA == LET f == FindName("a") IN IF f = <<>> THEN 0 ELSE f[1]
+FindOn(e, n, incl, rec) ==
+  (IF incl /\ e # 0 /\ nodes[e].n = n THEN <<e>> ELSE <<>>)
+  \o SelectSeq(IF rec THEN WalkOf(kids, e) ELSE kids[e], LAMBDA id : nodes[id].n = n)
 FindOrder == st = "run" => \A n \in {e[2] : e \in {x \in Events : x[1] = "start"}} :
                LET f == FindName(n) IN \A j \in 1..(Len(f) - 1) : f[j] < f[j + 1]
 
@@ -153,5 +158,7 @@ Emit == PrintT(ToJson([evs |-> evs, st |-> st, nodes |-> nodes,
                        findc |-> IF st = "run" THEN FindClass("a", "c") ELSE <<>>,
                        findcd |-> IF st = "run" THEN FindClasses("a", {"c", "d"}) ELSE <<>>,
                        finde |-> IF st = "run" THEN FindClasses("a", {}) ELSE <<>>,
+                       firsta |-> IF st = "run" THEN FirstA ELSE 0,
+                       findon |-> IF st = "run" THEN [j \in 1..4 |-> FindOn(FirstA, "a", j \in {1, 2}, j \in {1, 3})] ELSE <<>>,
                        findd |-> IF st = "run" THEN FindKind("Data") ELSE <<>>]))
 =============================================================================
